@@ -234,6 +234,7 @@ def run(F, res, tier):
     _c10q.same_class_is_a_no_op(F, res, rule="M15")
     _c10q.display_is_budgeted(F, res, rule="M16")   # the stack of a worker thread: an overflow there aborts the process
     _c10q.recursion_follows_nesting_not_length(F, res, rule="M18")
+    _c10q.instantiation_shares_what_the_type_shares(F, res, rule="M19")
     files_lie_below_their_root(F, res)
     disk_reads_are_bounded(F, res)
     client_named_paths_are_read_as_regular_files(F, res)
